@@ -29,7 +29,10 @@ PROP = dict(
                'entry is still valid (a connection whose server answered a corrupted record with a fatal alert removes its entry for good; left free when '
                'enough registrations happened that LRU eviction was possible), '
                'a ticket/TLS 1.3 PSK resumes iff its ticket key has not been deleted, every handshake completes, delivered data equals sent data. '
-               'Not covered: DTLS, client authentication, EC server identities, matrixSslClose/Open racing with sessions, more than 8 threads.',
+               'Not covered: DTLS, client authentication, EC server identities, matrixSslClose/Open racing with sessions, more than 8 threads, CPU-affinity variation. '
+               'Sensitivity (props/C20/mutants/*.patch, applied on top of the two finding patches): lock dropped in matrixResumeSession, PRNG lock dropped, ticket-key inUse '
+               'flag cleared after the unlock, ephemeral ECC cache without its lock, deleted ticket key still usable, lock leaked on a cache miss (deadlock) are all reported by the '
+               'quick tier; a check-then-use atomicity mutant without a data race (table lock released and re-taken inside matrixResumeSession) is NOT reliably found.',
     technique='concurrency testing: generated multi-threaded operation programs run under ThreadSanitizer with seeded schedule perturbation (ld --wrap of '
               'psLockMutex/psUnlockMutex), interval-logged operations checked for linearizability per shared object (Wing-Gong search), deadlock watchdog',
     rule='case = program (N in {2,4,8} threads x 1..6 operations: full / session-id-resumed / RFC 5077 ticket-resumed / TLS 1.3 PSK-resumed handshakes over a shared '
